@@ -232,9 +232,25 @@ def rule_x1(ctx: Ctx) -> None:
                         ctx.violation("C13-X1", fi, node, f"yields unknown member PermType.{ch[1]}")
                     else:
                         producers[ch[1]].append((fi, node))
+    # references to a member that are not direct yields (tables of types, PermType(i), ...): production then goes through data
+    indirect = {m: 0 for m in members}
+    for fi in repo.all_funcs():
+        for node in walk_no_nested(fi.node):
+            ch = attr_chain(node) if isinstance(node, ast.Attribute) else None
+            if ch and len(ch) == 2 and ch[0] == "PermType" and ch[1] in indirect:
+                indirect[ch[1]] += 1
+    for ci2 in repo.classes.values():
+        for v in ci2.assigns.values():
+            for node in ast.walk(v):
+                ch = attr_chain(node) if isinstance(node, ast.Attribute) else None
+                if ch and len(ch) == 2 and ch[0] == "PermType" and ch[1] in indirect and ci2.name != "PermType":
+                    indirect[ch[1]] += 1
+    by_value = any(isinstance(n, ast.Call) and unparse(n.func) == "PermType" for fi in pp.methods.values() for n in walk_no_nested(fi.node))
     for m, lst in producers.items():
         if len(lst) == 1:
             ctx.ok("C13-X1", lst[0][0].where, f"PermType.{m} has exactly one producer", lst[0][1], lst[0][0])
+        elif not lst and (indirect[m] > 0 or by_value):
+            raise AnalysisError(f"{pt.where}: PermType.{m} is not yielded directly; it is produced through a table or by value – which test produces it is not decided")
         elif not lst:
             ctx.violation("C13-X1", pt.where, pt.assign_nodes[m], f"PermType.{m} has no producer: no basis can ever meet it, so no class is declared polynomial", file=pt.module.relpath)
         else:
